@@ -128,8 +128,11 @@ impl MemoryManager {
 
     pub fn remove_token(&self, token: *const MemToken) {
         self.update_token(token);
-        let mut inner = self.mem_manager.lock().unwrap();
-        inner.remove_token(token);
+        {
+            let mut inner = self.mem_manager.lock().unwrap();
+            inner.remove_token(token);
+        }
+        // outside the lock: free() needs it to run a reclamation cycle
         self.free(token as *mut MemToken, 1);
     }
 
